@@ -2,8 +2,10 @@ package main
 
 import (
 	"fmt"
+	"regexp"
 	"strconv"
 	"strings"
+	"unicode/utf8"
 
 	"github.com/metrico/qryn/reader/logql/logql_transpiler_v2/clickhouse_planner"
 	"github.com/metrico/qryn/reader/logql/logql_transpiler_v2/shared"
@@ -14,6 +16,7 @@ import (
 // Conformance of Escape.tla with the code it transcribes, on the canonical concretisation of every exported string:
 //   spec Esc(s)          = real sql.NewStringVal(s).String()
 //   spec LikeText(s)     = the literal the real LineFilterPlanner renders for |= s
+//   spec RegexPlain(s)   = regexp/syntax parses s as the literal s (and regexp.QuoteMeta leaves it alone)
 //   spec Lex / LikeDecode = chsql.Lex / likeDecode on those texts (the spec's flags EscOK, LikeStructOK, LikeValueOK and
 //                           the decoded pattern are recomputed from the REAL text with the reference lexer)
 // A TLC counterexample (flag 0) that the real code does not reproduce is an infrastructure problem, and so is a
@@ -109,10 +112,10 @@ func conformance(cases []tlcCase) confResult {
 		}
 	}
 	for _, cs := range cases {
-		if cs.Flags == "xxx" {
+		if strings.HasPrefix(cs.Flags, "xxx") {
 			continue // a TLC counterexample string added by the checker without the spec's values
 		}
-		if len(cs.Flags) != 3 {
+		if len(cs.Flags) != 4 {
 			add(cs, "", "flags", cs.Flags, "")
 			continue
 		}
@@ -166,6 +169,16 @@ func conformance(cases []tlcCase) confResult {
 		}
 		if realValOK != (cs.Flags[2] == '1') {
 			add(cs, s, "LikeValueOK", cs.Flags[2:3], fmt.Sprint(realValOK))
+		}
+		// --- RegexPlain: the spec's class "the pattern is its own literal" against regexp/syntax (what the planners consult
+		// when they choose a rendering by the kind of pattern) and against regexp.QuoteMeta
+		lit, isLit := regexLiteral(s)
+		realPlain := isLit && lit == s
+		if realPlain != (cs.Flags[3] == '1') {
+			add(cs, s, "RegexPlain (regexp/syntax)", cs.Flags[3:4], fmt.Sprint(realPlain))
+		}
+		if utf8.ValidString(s) && s != "" && (regexp.QuoteMeta(s) == s) != (cs.Flags[3] == '1') {
+			add(cs, s, "RegexPlain (regexp.QuoteMeta)", cs.Flags[3:4], fmt.Sprint(regexp.QuoteMeta(s) == s))
 		}
 		if lok {
 			if want, ok := decToElems(cs.Dec); ok && !likeEq(want, likeDecode(lv)) {
